@@ -274,6 +274,11 @@ def plan(tier):
     return shards
 
 
+MOD_TINY = ((-1e-20, 3.0), (1e-17, -1.0), (-1e-10, 1e10), (1e-20, 3.0),
+            (-1e-300, 1.0), (-5e-324, 2.5), (1e-17, 1.0), (-1e-17, -1.0),
+            (-1e-17, 1.0))
+
+
 def binary_points(name):
     pos = POS_Q if name == 'Q' else POS_T
     pts = [0.0]
@@ -644,6 +649,12 @@ def shard_binary(sh, ctx):
             if route in ('call', 'ref') and x == int(x) and y == int(y) \
                     and abs(x) < 2 ** 53 and abs(y) < 2 ** 53:
                 run_case(ctx, 'binary', fn, (int(x), int(y)), route)
+    if sh['ilo'] == 0 and fn == 'MOD':
+        # dividends whose ratio to the divisor is below one ulp: the
+        # correctly rounded remainder is the divisor itself (opposite signs)
+        # or the dividend (same signs)
+        for x, y in MOD_TINY:
+            run_case(ctx, 'binary', fn, (x, y), route, ('mod:tiny-ratio',))
     if sh['ilo'] == 0:
         ctx.sample({'fn': fn, 'args': [pts[sh['ihi']], pts[3]],
                     'route': route})
